@@ -184,7 +184,7 @@ def d2(chk):
             for v in fr.classify(r.value):
                 if v != "fresh":
                     root = v[1]
-                    if any(root.startswith(x) or root == x for x in ("self.orbit", "self._orbit", "self.tle", "orb", "orbit")) or v[0] == "alias":
+                    if any(root.startswith(x) or root == x for x in ("self.orbit", "self._orbit", "self.tle", "orb", "orbit")) or v[0] in ("alias", "view"):
                         bad.add(v)
         ok = not bad
         chk.inst("D2", f"{f.ref}::fresh-result", ok, "result shares no mutable item with the initial orbit" if ok else
@@ -220,7 +220,9 @@ def d3(chk):
         fr = Fresh(f, repo)
         for text, root, node in stores_through(f, fr.flow):
             vals = fr.classify(root)
-            aliased = [v for v in vals if v != "fresh" and v[0] == "alias" and v[1] not in ("self", "kwargs") and not v[1].startswith("element of kwargs")]
+            is_element_store = text.endswith("]")
+            aliased = [v for v in vals if v != "fresh" and (v[0] == "alias" or (v[0] == "view" and is_element_store))
+                       and v[1] not in ("self", "kwargs") and not v[1].startswith("element of kwargs")]
             # writes to the propagator's own attributes (self.x = ...) are state of the propagator, decided by D4
             if isinstance(root, ast.Name) and root.id == "self":
                 continue
